@@ -2,7 +2,7 @@
 import ast
 
 from ..pymodel import AnalysisError, FuncInfo, parent
-from ..astutil import (src, is_name, is_const, const_num, call_name, walk_no_nested, strip_docstring,
+from ..astutil import (canon, src, is_name, is_const, const_num, call_name, walk_no_nested, strip_docstring,
                        compare_atoms, enclosing_stmt, calls_in, names_in, assignments_to, literal_tuple)
 from ..cfg import cfg_of, ENTRY, EXIT
 
@@ -47,10 +47,13 @@ def rules(ctx):
         for r in rets:
             defs = [v for s_, v in assignments_to(fn.node, src(r.value)) if isinstance(v, ast.AST)] if isinstance(r.value, ast.Name) else [r.value]
             for v in defs:
+                v = canon(v) if isinstance(v, ast.IfExp) else v
                 if isinstance(v, ast.IfExp):
                     t = v.test
-                    okt = isinstance(t, ast.Compare) and len(t.ops) == 1 and isinstance(t.ops[0], (ast.Eq, ast.Is)) and \
-                        src(t.left) == 'type(%s)' % arg and src(t.comparators[0]).split('.')[-1] == A + 'Matrix'
+                    okt = False
+                    if isinstance(t, ast.Compare) and len(t.ops) == 1 and isinstance(t.ops[0], (ast.Eq, ast.Is)):
+                        sides = [src(t.left), src(t.comparators[0])]
+                        okt = 'type(%s)' % arg in sides and any(x.split('.')[-1] == A + 'Matrix' for x in sides)
                     okb = isinstance(v.body, ast.Call) and src(v.body.func).split('.')[-1] == B + 'Matrix' and not v.body.args
                     oko = isinstance(v.orelse, ast.Call) and src(v.orelse.func).split('.')[-1] == B and not v.orelse.args
                     ok = okt and okb and oko
@@ -92,7 +95,7 @@ def rules(ctx):
         for t, pol, o in g.edge_dominators(r):
             facts += compare_atoms(t, pol)
         for f in facts:
-            if len(f) == 3 and f[1] == '==' and f[2] in ('0', '-1'):
+            if len(f) == 3 and f[1] == '==' and f[2] in ('0', '-1') and f[0] not in ('0', '-1'):
                 rt[f[2]] = src(r.value)
         if not [f for f in facts if len(f) == 3 and f[1] == '==']:
             rt['default'] = src(r.value)
@@ -195,7 +198,10 @@ def rules(ctx):
             if src(lp.iter) != '%s.items()' % sn:
                 continue
             kv = src(lp.target.elts[0])
-            for s_, v in assignments_to(fn.node, 'key'):
+            keynames = {src(t.slice) for st in ast.walk(lp) if isinstance(st, (ast.Assign, ast.AugAssign))
+                        for t in (st.targets if isinstance(st, ast.Assign) else [st.target])
+                        if isinstance(t, ast.Subscript) and isinstance(t.slice, ast.Name)}
+            for s_, v in [x for kn in sorted(keynames) for x in assignments_to(fn.node, kn)]:
                 if isinstance(v, ast.AST):
                     for n in ast.walk(v):
                         if isinstance(n, (ast.GeneratorExp, ast.ListComp)) and len(n.generators) == 1 and \
@@ -231,9 +237,15 @@ def rules(ctx):
             for r in [n for n in walk_no_nested(strip_docstring(fn.node.body)) if isinstance(n, ast.Return)]:
                 v = r.value
                 if isinstance(v, ast.DictComp) and len(v.generators) == 1 and src(v.generators[0].iter) == '%s.items()' % sn:
-                    ifs = [src(i) for i in v.generators[0].ifs]
                     kname = src(v.generators[0].target.elts[0])
-                    ok = ifs == [want_if.replace('k', kname)] and (want_key is None or src(v.key) == want_key.replace('k', kname))
+                    ifs = v.generators[0].ifs
+                    okif = len(ifs) == 1
+                    if okif and want_if == 'k':
+                        okif = src(ifs[0]) == kname
+                    elif okif:
+                        n_ = want_if.split('== ')[1]
+                        okif = ('len(%s)' % kname, '==', n_) in compare_atoms(ifs[0], True)
+                    ok = okif and (want_key is None or src(v.key) == want_key.replace('k', kname))
         ctx.inst('R04.8', fn or (P.cls(cname).module.relpath, cname), 'property %s' % prop, ok,
                  "selects the terms by key length" if ok else
                  "%s.%s does not select exactly the terms `if %s`" % (cname, prop, want_if))
